@@ -618,6 +618,12 @@ pub fn eval(expr: Node) -> Result<Number, Box<dyn error::Error>> {
             for arg in <Vec<Node> as Clone>::clone(&args).into_iter() {
                 results.push(eval(arg)?);
             }
+            if results
+                .iter()
+                .any(|x| matches!(x, Number::Float(f) if f.is_nan()))
+            {
+                return Ok(Number::Float(f64::NAN));
+            }
             results.sort_by(|a, b| {
                 let a = match a {
                     Number::Integer(x) => (*x) as f64,
